@@ -185,12 +185,12 @@ def threaded_runs(ctx):
                 runs.append(summarize(rec, spec, cap, scripts, {"policy": "prefix", "case": "fine%d" % ci, "fine": True}))
             try:
                 b = bound if ctx.tier == "thorough" or ctx.escalated else 1
-                n, exhausted = S.explore(make, b, ctx.budget(80, 1200), on_run, fine=True)
+                n, exhausted = S.explore(make, b, ctx.budget(80, 600), on_run, fine=True)
                 ctx.count("explore_fine_%d_%s_bound%d_%s" % (ci, spec, b, "exhausted" if exhausted else "truncated"), n)
             except S.ShapeChanged as ex:
                 ctx._c18_shape.append("%s: %s" % (spec, ex))
         rng = ctx.subrng("threads")
-        for i in range(ctx.budget(150, 3500)):
+        for i in range(ctx.budget(150, 3000)):
             spec, cap, scripts = gen_case(rng)
             seed = rng.randrange(1 << 30)
             rate = rng.choice([0.0, 0.05, 0.15])
